@@ -124,7 +124,12 @@ fn run_writer(cap: usize, ending: &[u8], ops: &[Op], script: Vec<Outcome>) -> St
     }));
     let ending = String::from_utf8(ending.to_vec()).expect("ending must be UTF-8");
     let mut results: Vec<String> = vec![];
-    let mut w = Some(MultiLineWriter::with_ending(Scripted(shared.clone()), cap, &ending));
+    // both constructors: `new` is `with_ending(.., "\n")`
+    let mut w = Some(if ending == "\n" && cap % 2 == 0 {
+        MultiLineWriter::new(Scripted(shared.clone()), cap)
+    } else {
+        MultiLineWriter::with_ending(Scripted(shared.clone()), cap, &ending)
+    });
     let mut panicked = false;
     for (i, op) in ops.iter().enumerate() {
         shared.borrow_mut().cur_op = i;
@@ -162,7 +167,11 @@ fn run_writer(cap: usize, ending: &[u8], ops: &[Op], script: Vec<Outcome>) -> St
 /// the first `queue` underlying writes succeed, every later one fails ("channel full").
 /// Only successful writes are observable (as messages on the receiver).
 fn run_spy(cap: Option<usize>, queue: Option<usize>, ops: &[Op]) -> String {
-    let (rx, sink) = BufferedSpyMetricSink::with_capacity(queue, cap);
+    let (rx, sink) = if queue.is_none() && cap.is_none() {
+        BufferedSpyMetricSink::new()
+    } else {
+        BufferedSpyMetricSink::with_capacity(queue, cap)
+    };
     let mut results: Vec<String> = vec![];
     let mut sink = Some(sink);
     for op in ops {
